@@ -19,9 +19,9 @@ def gen_cases(prop, seed, tier, budget=1.0):
         for i in range(n):
             ops = gen_rope.rope_history(rng, rng.choice([10, nops, nops, 2 * nops]), nv, dist)
             cases.append(f"r{i} ROPE " + ';'.join(ops))
-        big = 2 if tier == 'quick' else 12
+        big = 2 if tier == 'quick' else 8
         for i in range(big):   # long histories: carries through many chunks, big ropes
-            ops = gen_rope.rope_history(rng, 1500 if tier == 'quick' else 6000, nv, dist, maxinit=[300, 700, 40, 3000][i % 4] if tier != 'quick' else [300, 700][i % 2], reads=False)
+            ops = gen_rope.rope_history(rng, 1500 if tier == 'quick' else 4000, nv, dist, maxinit=[300, 700, 40, 1200][i % 4] if tier != 'quick' else [300, 700][i % 2], reads=False)
             cases.append(f"R{i} ROPE " + ';'.join(ops + ['len', 'into']))
     else:
         n, nops = (500, 40) if tier == 'quick' else (12000, 60)
